@@ -11,7 +11,7 @@
    [collapse_bin], [is_approximate_multiple], [filter_in_phase] are the executable
    model of filtering.py (Verif.C19.Model), tied to the code by Corr.v on this run. *)
 From Coq Require Import List ZArith QArith Qabs Bool Sorted PrimFloat.
-From Verif.C19 Require Import Carrier Model Spec Proofs ProofsArith ProofsPhase ProofsFloat Carrier32 ProofsFloat32.
+From Verif.C19 Require Import Carrier Model Spec Proofs ProofsArith ProofsPhase ProofsFloat Carrier32 ProofsFloat32 ProofsAtt.
 Import ListNotations.
 Local Close Scope Q_scope.
 
@@ -62,6 +62,30 @@ Theorem C19_points_unchanged :
       exists i j, i <= j < length pts /\ length bin = S (j - i)
                   /\ forall k, k < length bin -> nth k bin d = nth (i + k) pts d.
 Proof. exact points_unchanged. Qed.
+
+(* "each holding its points unchanged" for whole rows: whatever travels with a point (variance, mask entries,
+   further coordinates) is grouped exactly like the point; the bins of the rows (points with attachments) are
+   slices of the input rows for the maximal runs L, and the bins of the points / of the attachments alone are
+   their projections (the two comparisons made by Corr.v for series with attachments) *)
+Theorem C19_attachments_travel :
+  forall (X Y : Type) (f : X -> Y) (flags : list bool) (min_n : Z) (rows : list X),
+    length rows = S (length flags) ->
+    plateau_bins flags min_n (map f rows) = map (map f) (plateau_bins flags min_n rows).
+Proof. exact attachments_travel. Qed.
+
+Theorem C19_rows_unchanged :
+  forall (P A : Type) (flags : list bool) (min_n : Z) (pts : list P) (atts : list A),
+    length pts = S (length flags) -> length atts = length pts ->
+    exists L, plateaus_spec (fun k => nth k flags false) (length pts - 1) min_n L
+              /\ plateau_bins flags min_n (combine pts atts) = map (slice (combine pts atts)) L
+              /\ plateau_bins flags min_n pts = map (map fst) (map (slice (combine pts atts)) L)
+              /\ plateau_bins flags min_n atts = map (map snd) (map (slice (combine pts atts)) L).
+Proof. exact rows_unchanged. Qed.
+
+Example C19_rows_unchanged_sat :
+  plateau_bins [false; true; false] 2 [(1, true); (2, false); (3, true); (4, true)]%Z
+  = [[(1, true); (2, false)]; [(3, true); (4, true)]]%Z.
+Proof. exact rows_unchanged_sat. Qed.
 
 (* find_plateaus returns iff no selected plateau exceeds the total-drift bound
    ((max - min) / mean step > 2 atol); otherwise RuntimeError naming exactly those plateaus *)
@@ -198,6 +222,8 @@ Print Assumptions C19_plateaus_spec_unique.
 Print Assumptions C19_disjoint_ordered_complete.
 Print Assumptions C19_bins_partition_input.
 Print Assumptions C19_points_unchanged.
+Print Assumptions C19_attachments_travel.
+Print Assumptions C19_rows_unchanged.
 Print Assumptions C19_raises_only_on_drift.
 Print Assumptions C19_collapse_mean_and_interval.
 Print Assumptions C19_collapse_interval_float.
